@@ -460,6 +460,28 @@ var TemplatesA = []Template{
 			b[4+i] = 2 * b[i] // x and y start from zero in every iteration
 		}
 	}},
+	{"constant-expressions-int", "i32", "const A = -7; const B = 2;", "buf[0] = A / B; buf[1] = A % B; buf[2] = (A >> 1u) + (A << 2u); buf[3] = abs(A) + min(A, B) + max(A, B) + clamp(A, -3, 3); buf[4] = select(A, B, A < B) + i32(A == -7) + i32(!(A > B)); buf[5] = (A & 12) | (B ^ 5); buf[6] = -A * B - (A - B); buf[7] = i32(u32(A) >> 28u);", func(b []uint32) {
+		A, B := int32(-7), int32(2)
+		b[0] = uint32(A / B)
+		b[1] = uint32(A % B)
+		b[2] = uint32((A >> 1) + (A << 2))
+		b[3] = uint32(7 + A + B + (-3))
+		b[4] = uint32(B + 1 + 1)
+		b[5] = uint32((A & 12) | (B ^ 5))
+		b[6] = uint32(-A*B - (A - B))
+		b[7] = uint32(A) >> 28
+	}},
+	{"constant-expressions-bits", "u32", "const X = 0x00F0ABCDu; const Z = 0u;", "buf[0] = countLeadingZeros(X) + countLeadingZeros(Z) * 100u; buf[1] = countTrailingZeros(X) + countTrailingZeros(Z) * 100u; buf[2] = countOneBits(X) + reverseBits(X); buf[3] = firstLeadingBit(X) + firstTrailingBit(X) + firstLeadingBit(Z); buf[4] = extractBits(X, 4u, 8u) + insertBits(X, 0xFFu, 28u, 8u); buf[5] = extractBits(X, 30u, 5u) + extractBits(X, 40u, 3u); buf[6] = (X >> 4u) % 7u + X / 1000u; let pk = pack4xU8(vec4<u32>(1u, 2u, 3u, 260u)); buf[7] = pk + unpack4xU8(X).y;", func(b []uint32) {
+		X := uint32(0x00F0ABCD)
+		b[0] = uint32(RefClz(X)) + 32*100
+		b[1] = uint32(RefCtz(X)) + 32*100
+		b[2] = uint32(RefPopc(X)) + RefRev(X)
+		b[3] = uint32(31-RefClz(X)) + uint32(RefCtz(X)) + 0xFFFFFFFF
+		b[4] = (X >> 4 & 0xFF) + (X&0x0FFFFFFF | 0xF0000000)
+		b[5] = (X >> 30) + 0
+		b[6] = (X>>4)%7 + X/1000
+		b[7] = (1 | 2<<8 | 3<<16 | (260&0xFF)<<24) + (X >> 8 & 0xFF)
+	}},
 }
 
 // BinAsTemplate turns an integer binary operator into a template: buf[2] = buf[0] OP buf[1].
@@ -581,4 +603,35 @@ func RefCtz(x uint32) int {
 		return 32
 	}
 	return 31 - RefClz(x&-x)
+}
+
+// ProbeNames are the templates every other template is sequentially composed with in the
+// thorough tier ({ body1 } { body2 }: statement-to-statement interactions such as baked
+// temporaries, helper emission and naming across statements).
+var ProbeNames = []string{"struct-array-local", "helper-call", "switch", "loop-break-continue", "compound-assign", "dynamic-index", "pointer-arg", "if-else"}
+
+// Pairs returns the sequential compositions t1;t2 of every template with every probe of the
+// same element type (at most one of the two may have module-scope declarations).
+func Pairs() []Template {
+	var out []Template
+	for _, a := range TemplatesA {
+		for _, pn := range ProbeNames {
+			var b Template
+			for _, t := range TemplatesA {
+				if t.Name == pn {
+					b = t
+				}
+			}
+			if b.Name == "" || b.Ty != a.Ty || (a.Decl != "" && b.Decl != "") || a.Name == b.Name {
+				continue
+			}
+			if len(a.Body) > 5 && a.Body[:6] == "#args " {
+				continue
+			}
+			ra, rb := a.Ref, b.Ref
+			out = append(out, Template{Name: a.Name + "+" + b.Name, Ty: a.Ty, Decl: a.Decl + b.Decl,
+				Body: "{ " + a.Body + " }\n{ " + b.Body + " }", Ref: func(w []uint32) { ra(w); rb(w) }})
+		}
+	}
+	return out
 }
